@@ -179,3 +179,32 @@ def generic_rk_dense(a, b, c, hfun, psi, tau, t0=0.0):
     for i in range(len(c)):
         out = out + b[i] * tau * ks[i]
     return out
+
+
+def order_verdict(dts, errs, p, hn, floor=1e-13):
+    """One-step errors e(dt) of a scheme advertised with (global) order p, dt decreasing.  The property demands convergence to the exact
+    result with AT LEAST the advertised order; only that is tested (faster convergence is never flagged):
+      * slope: least-squares slope of log e against log dt over the pre-round-off points (e > floor, ||H|| dt <= 0.5, e < 0.3) must be
+        >= p + 0.3, or the finest pair of those points must show >= p + 0.5  (one-step error of an order-p scheme is O(dt^(p+1)); a scheme
+        that lost one order shows p; pre-asymptotic slopes between p + 0.3 and p + 1 are legitimate);
+      * monotone: the error must not grow when dt is halved, until the round-off floor;
+      * size: e <= max(1e-9, 10 (||H|| dt)^(p+1)).
+    Returns a list of findings (empty = fine)."""
+    import math
+    bad = []
+    pts = [(dt, e) for dt, e in zip(dts, errs) if hn * dt <= 0.5 and floor < e < 0.3]
+    if len(pts) >= 2:
+        xs = [math.log(dt) for dt, _ in pts]
+        ys = [math.log(e) for _, e in pts]
+        mx, my = sum(xs) / len(xs), sum(ys) / len(ys)
+        slope = sum((x - mx) * (y - my) for x, y in zip(xs, ys)) / sum((x - mx) ** 2 for x in xs)
+        fine = (ys[-2] - ys[-1]) / (xs[-2] - xs[-1])
+        if slope < p + 0.3 and fine < p + 0.5:
+            bad.append(("slope", round(slope, 3), "finest pair", round(fine, 3), "needed", p + 0.3))
+    for i in range(len(errs) - 1):
+        if hn * dts[i] <= 0.5 and errs[i] > 100 * floor and errs[i + 1] > 1.05 * errs[i]:
+            bad.append(("not decreasing", dts[i], errs[i], errs[i + 1]))
+    for dt, e in zip(dts, errs):
+        if hn * dt <= 0.5 and not e <= max(1e-9, 10 * (hn * dt) ** (p + 1)):
+            bad.append(("size", dt, e))
+    return bad
